@@ -39,6 +39,12 @@ deriving DecidableEq, Repr
 
 /-! ## tuples (critical options / extensions) -/
 
+/-- `haveLastKey && keyStr <= lastKey` (`last = none` ↔ `haveLastKey = false`) -/
+def outOfOrder (last : Option Bytes) (key : Bytes) : Bool :=
+  match last with
+  | some l => bytesLe key l
+  | none => false
+
 /-- `parseTuples`: name string, data string; names strictly increasing; a non-empty data field must
     hold exactly one inner string, an empty data field is the empty value.
     `last = none` ↔ `haveLastKey = false`. -/
@@ -49,7 +55,7 @@ def parseTuplesGo : Nat → Bytes → Option Bytes → Option (List (Bytes × By
     match parseString b with
     | none => none
     | some (key, r) =>
-      if (match last with | some l => bytesLe key l | none => false) then none else
+      if outOfOrder last key then none else
       match parseString r with
       | none => none
       | some (val, r') =>
